@@ -54,6 +54,7 @@ def naming_schemas(tier):
     S = []
     def sch(label, types, entries=("Things",)): S.append((label, types, list(entries)))
     base = lambda n="Thing", props=("id", "name"), edges=None: (n, props, (("peer", n),) if edges is None else edges)   # every type has at least one edge: its resolver calls the as_<variant>() accessor
+    S.append(("feature_mix_parameters_of_every_type", "FEATURES", ["Things", "Other", "Empties"]))
     sch("plain", [base()])
     sch("consecutive_capitals_type", [base("HTTPServer")], ["Servers"])
     sch("two_capitals_type", [base("AB")])
@@ -73,10 +74,40 @@ def naming_schemas(tier):
     sch("lowercase_type", [base("thing"), base("other_thing")])
     sch("vertex_named_vertex", [base("Vertex"), base("Adapter")])
     sch("names_like_std", [base("Option"), base("Some"), base("Box"), base("Vec")])
-    if tier == "quick": S = [s for s in S if s[0] in ("plain", "consecutive_capitals_type", "case_only_type_collision", "keyword_fields", "entrypoints_case_collision", "digit_in_type", "type_and_type_underscore")]
+    if tier == "quick": S = [s for s in S if s[0] in ("plain", "consecutive_capitals_type", "case_only_type_collision", "keyword_fields", "entrypoints_case_collision", "digit_in_type", "type_and_type_underscore", "feature_mix_parameters_of_every_type")]
     return S
 
+FEATURE_SDL = """schema { query: RootQ }
+%s
+type RootQ {
+  Things(limit: Int = 3, name: String, tags: [String!], ratio: Float!, flags: [Boolean]): [Thing!]
+  Other: Other!
+  Empties: [Empty]
+}
+interface Named { name: String }
+type Thing implements Named {
+  id: Int!
+  name: String
+  scores: [Float]!
+  grid: [[Int!]]
+  flags: [Boolean!]
+  labels: [String]
+  comment(by_author: String, limit: Int!): [Other!]
+  tagged(tags: [String!]!, any: Boolean = true): [Thing]
+  near(radius: Float = 1.5, ids: [Int], deep: [[Int!]]): Thing
+  plain: [Named!]!
+}
+type Other implements Named {
+  name: String
+  back(label: String! = "x"): Thing!
+}
+type Empty { self_(n: Int): Empty }
+"""
+
 def naming_sdl(types, entries):
+    if types == "FEATURES":
+        from lib import DIRECTIVES
+        return FEATURE_SDL % DIRECTIVES
     from lib import DIRECTIVES
     out = ["schema { query: RootQ }", DIRECTIVES, "type RootQ {"]
     first = types[0][0]
@@ -100,7 +131,10 @@ def check_C26(tier, seed):
         ip, op = os.path.join(wd, "in.ndjson"), os.path.join(wd, "out.ndjson")
         write_ndjson(ip, jobs); vh(["map", "stubgen", ip, op]); gen = read_ndjson(op)
         # the model's prediction
-        cases = [{"id": k + 1, "names": {"types": [{"name": list(n), "fields": [list(p) for p in props] + [list(en) for en, _ in edges], "edges": [list(en) for en, _ in edges]} for n, props, edges in t], "entries": [list(x) for x in e]}} for k, (l, t, e) in enumerate(schemas)]
+        feat = {"types": [{"name": list("Thing"), "fields": [list(x) for x in ("id", "name", "scores", "grid", "flags", "labels", "comment", "tagged", "near", "plain")], "edges": [list(x) for x in ("comment", "tagged", "near", "plain")]},
+                          {"name": list("Other"), "fields": [list("name"), list("back")], "edges": [list("back")]}, {"name": list("Named"), "fields": [list("name")], "edges": []},
+                          {"name": list("Empty"), "fields": [list("self_")], "edges": [list("self_")]}], "entries": [list("Things"), list("Other"), list("Empties")]}
+        cases = [{"id": k + 1, "names": feat} if t == "FEATURES" else {"id": k + 1, "names": {"types": [{"name": list(n), "fields": [list(p) for p in props] + [list(en) for en, _ in edges], "edges": [list(en) for en, _ in edges]} for n, props, edges in t], "entries": [list(x) for x in e]}} for k, (l, t, e) in enumerate(schemas)]
         p = os.path.join(wd, "judge.ndjson"); write_ndjson(p, cases)
         r = tlc("JudgeStubgen", "JudgeStubgen.cfg", {"INST": p}, wd, workers=4, timeout=900)
         res.add_tlc(r)
@@ -173,7 +207,8 @@ def value_cases():
             {"kind": "float", "v": 1.5}, {"kind": "float", "v": -0.5}, {"kind": "float", "v": 0.0}, {"kind": "float", "v": "nan"}, {"kind": "float", "v": "inf"}, {"kind": "float", "v": "-inf"},
             {"kind": "str", "v": ""}, {"kind": "str", "v": "abc"}, {"kind": "str", "v": "é中"}, {"kind": "tuple", "v": [I(1)]}, {"kind": "dict"}, {"kind": "bytes"}, {"kind": "floatlike"}, {"kind": "object"}]
     L = lambda *xs: {"kind": "list", "v": list(xs)}
-    lists = [L(), L({"kind": "none"}), L(I(1), I(2)), L(I(1), {"kind": "none"}), L(I(1), I(1 << 63)), L(I(1), {"kind": "str", "v": "a"}), L(I(1), {"kind": "bool", "v": True}), L(I(1), {"kind": "float", "v": 2.5}),
+    Bv = lambda b: {"kind": "bool", "v": b}
+    lists = [L(Bv(True), Bv(False)), L(Bv(True)), L(Bv(False), {"kind": "none"}), L(L(Bv(True)), L(Bv(False), Bv(True))), L(), L({"kind": "none"}), L(I(1), I(2)), L(I(1), {"kind": "none"}), L(I(1), I(1 << 63)), L(I(1), {"kind": "str", "v": "a"}), L(I(1), {"kind": "bool", "v": True}), L(I(1), {"kind": "float", "v": 2.5}),
              L({"kind": "str", "v": "a"}, {"kind": "str", "v": "b"}), L({"kind": "float", "v": 1.5}, {"kind": "float", "v": "nan"}), L(I(1 << 64)), L(L(I(1)), L(I(2), {"kind": "none"})), L(L(), L()), L(L(I(1)), {"kind": "none"}),
              L(L(I(1)), I(2)), L({"kind": "object"}), L({"kind": "tuple", "v": [I(1)]})]
     out = []
